@@ -30,7 +30,7 @@ m = {
                  "kind_free_text": "contract-based deductive verification: function bodies extracted verbatim from /repo (and, for C11, from the pinned dependency source) on every run, annotated from /verif/contracts, discharged by Verus (Z3) and Kani (CBMC); bounded native companions (contracts/native) as stand-ins where neither verifier reaches"}],
     "checks": checks,
     "not_applicable": na,
-    "notes": "fix commits in /repo: see known_findings.json (status=fixed; replay tests under fixes/). DESIGN.md sections 8-9 record what was built, the assumptions and the per-property verdicts (table in 9.7). Checks named native_* are bounded stand-ins (executable contract clauses on the real code over a stated finite family), never counted as proved.",
+    "notes": "fix commits in /repo: see known_findings.json (status=fixed; replay tests under fixes/). DESIGN.md sections 8-10 record what was built, the assumptions and the per-property verdicts (table in 9.7, changes in 10.6). Checks named native_* are bounded stand-ins (executable contract clauses on the real code over a stated finite family), never counted as proved.",
 }
 json.dump(m, open(os.path.join(V, "MANIFEST.json"), "w"), indent=1)
 print("claimed:", [c["property_id"] for c in checks])
